@@ -373,6 +373,25 @@ def hx(b):
     return b.hex() if len(b) else "-"
 
 
+class _Timed:
+    def __init__(self, rc, out, err, timed_out):
+        self.returncode, self.stdout, self.stderr, self.timed_out = rc, out or b"", err or b"", timed_out
+
+
+def run_timed(cmd, timeout, **kw):
+    """subprocess.run with a timeout that does not raise: a process that does not finish is killed and reported as timed_out (what it wrote
+    so far is kept) - a check never hangs on a library that does"""
+    kw.setdefault("stdout", subprocess.PIPE); kw.setdefault("stderr", subprocess.PIPE)
+    try:
+        p = subprocess.run(cmd, timeout=timeout, **kw)
+        return _Timed(p.returncode, p.stdout, p.stderr, False)
+    except subprocess.TimeoutExpired as e:
+        return _Timed(-999, e.stdout, e.stderr, True)
+
+
+OPS_TIMEOUT = 1500          # seconds for one harness process over a whole stream (normal: seconds to a minute)
+
+
 def run_ops(scr, drive, driver, ops, tag="ops", env_extra=None):
     """run ops through the harness (restarting after a sanitizer abort) and through the model driver.
     Returns (c_lines, lean_lines, crashes) with c_lines[i] / lean_lines[i] the result for ops[i]."""
@@ -393,7 +412,34 @@ def run_ops(scr, drive, driver, ops, tag="ops", env_extra=None):
         flean = os.path.join(scr.dir, "%s_%d.lean" % (tag, k))
         with open(fin, "w") as f:
             f.write("\n".join(ops[start:]) + "\n")
-        p = subprocess.run([drive, fin, fout, flean], stdout=subprocess.PIPE, stderr=subprocess.PIPE, env=env)
+        p = run_timed([drive, fin, fout, flean], OPS_TIMEOUT, env=env)
+        if p.timed_out:
+            # the library does not return on some op at or after the last line that reached the disk: find it by running the following
+            # ops one at a time
+            done = len(open(fout).read().split("\n")) - 1 if os.path.exists(fout) else 0
+            hang = None
+            for j in range(start + max(done, 0), min(len(ops), start + max(done, 0) + 400)):
+                f1 = os.path.join(scr.dir, "%s_hang.in" % tag)
+                with open(f1, "w") as f:
+                    f.write(ops[j] + "\n")
+                q = run_timed([drive, f1, f1 + ".out", f1 + ".lean"], 30, env=env)
+                if q.timed_out:
+                    hang = j; break
+            crashes.append(dict(index=hang, op=ops[hang] if hang is not None else None, kind="hang",
+                                stderr="the harness process did not finish within %d s%s" % (OPS_TIMEOUT, "; this op alone does not return within 30 s" if hang is not None else " (no single op reproduces it)")))
+            # everything from the first unwritten line on is not run
+            if os.path.exists(fout):
+                for i, ln in enumerate(open(fout).read().split("\n")[:-1]):
+                    c_lines[start + i] = ln
+            lp = open(flean).read().split("\n")[:-1] if os.path.exists(flean) else []
+            lean_in = lean_in or lp[:1]
+            ndone = sum(1 for x in c_lines[start:] if x is not None)
+            lean_in += lp[1:1 + ndone]
+            notrun = list(range(start + ndone, len(ops)))
+            lean_in += [ops[i] for i in notrun]
+            if hang is not None:
+                c_lines[hang] = ops[hang].split(" ")[0] + " FAULT"
+            break
         got = open(fout).read().split("\n") if os.path.exists(fout) else []
         # a complete line ends with \n; the last element after split is '' or a partial line
         complete = got[:-1] if got else []
@@ -446,4 +492,7 @@ def run_ops(scr, drive, driver, ops, tag="ops", env_extra=None):
         raise RuntimeError("model driver produced %d lines for %d ops" % (len(lean_lines), len(ops)))
     for i in notrun:
         c_lines[i] = lean_lines[i]
+    for cr in crashes:
+        if cr.get("kind") == "hang" and cr.get("index") is not None:
+            c_lines[cr["index"]] = ops[cr["index"]].split(" ")[0] + " FAULT"
     return c_lines, lean_lines, crashes
